@@ -116,30 +116,29 @@ theorem C01_neg_timedelta_text : tdStr (-1000000) = "-1 day, 23:59:59".toList :=
 
 /-! ### the structural round trip -/
 
-/-- **C01 (structure).** For every type of the fragment int / str / bool / Optional[·] / list[·] / dict[str, ·] /
-plain dataclass (no Meta, no aliases, no skip rules, camelCase keys that resolve back to their fields — `RT.PlainCls`, a
+/-- **C01 (structure).** For every type of the fragment int / float / str / bool / Decimal / Path / UUID / date / time /
+datetime (canonical tokens, under the named `StdLaws`) / Optional[·] / list[·] / dict[str, ·] / plain dataclass (no Meta, no aliases, no skip rules, camelCase keys that resolve back to their fields — `RT.PlainCls`, a
 decidable condition on the class), nested to any depth, and every value conforming to it (`RT.Conf`): whatever the dump
 produces, the JSON image of it (`RT.toJ` = what `json.loads(json.dumps(·))` returns) loads back to exactly the value.
 By induction over the conformance derivation; the dataclass case chains the generated field loop of the dumper into the
-key loop of the loader (`RT.fields_chain`) and the constructor step (`RT.buildFields_ok`). The other leaf kinds are
-covered leaf-wise above under their `StdLaws`. -/
-theorem C01_roundtrip_struct (std : Std) (t : Ty) (v : PyVal) (hc : RT.Conf t v) (d : DVal)
+key loop of the loader (`RT.fields_chain`) and the constructor step (`RT.buildFields_ok`). -/
+theorem C01_roundtrip_struct (std : Std) (laws : StdLaws std) (t : Ty) (v : PyVal) (hc : RT.Conf std t v) (d : DVal)
     (h : dumpV std false none v = .ok d) : loadD std none t (RT.toJ d) = .ok v :=
-  RT.roundtrip std t v hc d h
+  RT.roundtrip std laws t v hc d h
 
 /-- … and at the top level: `fromdict(cls, json.loads(json.dumps(asdict(x)))) == x` for every instance of a main class
 of the fragment. -/
-theorem C01_roundtrip_root (std : Std) (ci : ClassInfo) (ftys : List (S × Ty)) (v : PyVal)
-    (hc : RT.Conf (.cls ci ftys) v) (d : DVal) (h : asdict std {} v = .ok d) :
+theorem C01_roundtrip_root (std : Std) (laws : StdLaws std) (ci : ClassInfo) (ftys : List (S × Ty)) (v : PyVal)
+    (hc : RT.Conf std (.cls ci ftys) v) (d : DVal) (h : asdict std {} v = .ok d) :
     fromdict std (.cls ci ftys) (RT.toJ d) = .ok v :=
-  RT.roundtrip_root std ci ftys v hc d h
+  RT.roundtrip_root std laws ci ftys v hc d h
 
 /-- the hypotheses are satisfiable by a nested model: `Root(inner_obj: Inner, by_name: dict[str, Inner], maybe:
 Optional[bool])` with `Inner(val_one: int, tags: list[str])` — both classes are `PlainCls`, and a concrete instance
 conforms. -/
-theorem C01_roundtrip_example :
+theorem C01_roundtrip_example (std : Std) :
     RT.PlainCls RT.exRoot RT.exRootTys ∧ RT.PlainCls RT.exInner RT.exInnerTys ∧
-    RT.Conf (.cls RT.exInner RT.exInnerTys)
+    RT.Conf std (.cls RT.exInner RT.exInnerTys)
       (.inst RT.exInner ((RT.exInnerTys.map (·.1)).zip [.int 3, .seq .list [.str "a".toList, .str [] ]])) := by
   refine ⟨RT.exRoot_plain, RT.exInner_plain, RT.Conf.inst _ _ _ RT.exInner_plain rfl ?_⟩
   intro p hp
